@@ -26,7 +26,10 @@ func (g *c07Gen) count(k string) { g.stats[k]++ }
 // prim returns a primitive schema and its class.
 func (g *c07Gen) prim() J {
 	r := g.r
-	switch r.Intn(12) {
+	switch r.Intn(13) {
+	case 12:
+		// the integer formats of the documented table beyond int32/int64
+		return J{"type": "integer", "format": r.Pick([]string{"int8", "int16", "int", "uint8", "uint16", "uint32", "uint64", "uint"})}
 	case 0:
 		return J{"type": "string"}
 	case 1:
@@ -174,6 +177,17 @@ func (g *c07Gen) doc() J {
 	schemas["FixD"] = J{"type": "object", "required": []interface{}{"id"}, "additionalProperties": true,
 		"properties": J{"id": J{"type": "integer", "format": "int64"}, "title": J{"type": "string"}},
 		"oneOf":      []interface{}{J{"type": "object", "properties": J{"m1": J{"type": "string"}}}}}
+	// every integer format of the documented table: the extremes of each must survive (a member mapped to a narrower or
+	// signed type loses them)
+	fixG := J{}
+	for _, f := range []string{"int8", "int16", "int32", "int64", "int", "uint8", "uint16", "uint32", "uint64", "uint"} {
+		fixG["n_"+f] = J{"type": "integer", "format": f}
+	}
+	schemas["FixG"] = J{"type": "object", "properties": fixG}
+	// a union with optional members of its own, nullable and not: an absent one that is not nullable must stay absent
+	schemas["FixH"] = J{"type": "object", "required": []interface{}{"id"},
+		"properties": J{"id": J{"type": "integer"}, "title": J{"type": "string"}, "note": J{"type": "string", "nullable": true}, "size": J{"type": "integer", "format": "int64"}},
+		"oneOf":      []interface{}{J{"type": "object", "properties": J{"m1": J{"type": "string"}}}}}
 	return J{"openapi": "3.0.3", "info": J{"title": "t", "version": "1"}, "paths": J{}, "components": J{"schemas": schemas}}
 }
 
@@ -293,7 +307,20 @@ func (g *c07Inst) value(s J, depth int) interface{} {
 		switch s["format"] {
 		case "int32":
 			return json.Number(r.Pick([]string{"0", "1", "-1", "2147483647", "-2147483648"}))
-		case "int64":
+		case "int8":
+			return json.Number(r.Pick([]string{"0", "127", "-128"}))
+		case "int16":
+			return json.Number(r.Pick([]string{"0", "32767", "-32768"}))
+		case "uint8":
+			return json.Number(r.Pick([]string{"0", "255"}))
+		case "uint16":
+			return json.Number(r.Pick([]string{"0", "65535"}))
+		case "uint32":
+			return json.Number(r.Pick([]string{"0", "4294967295"}))
+		case "uint64", "uint":
+			g.mark("uint64-extreme")
+			return json.Number(r.Pick([]string{"0", "18446744073709551615", "9223372036854775808"}))
+		case "int64", "int":
 			g.mark("int64-extreme")
 			return json.Number(r.Pick([]string{"0", "5", "9223372036854775807", "-9223372036854775808", "9007199254740993"}))
 		}
@@ -381,6 +408,8 @@ func c07Equal(in, out interface{}, path string) string {
 		for k, w := range b {
 			if _, ok := a[k]; !ok && w != nil {
 				return fmt.Sprintf("%s.%s: member invented (%s)", path, k, short(w))
+			} else if !ok {
+				c07AbsentAsNull = append(c07AbsentAsNull, path+"."+k)
 			}
 		}
 		return ""
@@ -435,6 +464,10 @@ func c07Equal(in, out interface{}, path string) string {
 	}
 }
 
+// c07AbsentAsNull: the paths of members absent from the input that the output carries as null (filled by c07Equal;
+// tolerated only where the member is nullable)
+var c07AbsentAsNull []string
+
 func short(v interface{}) string {
 	b, _ := json.Marshal(v)
 	if len(b) > 60 {
@@ -458,7 +491,7 @@ func diffClass(d string) string {
 		return "other"
 	}
 	rest := d[i+2:]
-	for _, k := range []string{"explicit null of a required member lost", "explicit null lost", "member lost", "member invented", "empty array became null", "array length", "number", "string", "null became", "object became", "array became"} {
+	for _, k := range []string{"absent non-nullable member became null", "explicit null of a required member lost", "explicit null lost", "member lost", "member invented", "empty array became null", "array length", "number", "string", "null became", "object became", "array became"} {
 		if strings.HasPrefix(rest, k) {
 			return strings.ReplaceAll(k, " ", "-")
 		}
@@ -562,7 +595,18 @@ func runC07(ctx *Ctx) error {
 				ctx.Res.Violate("output-not-json:"+d.mode, "the re-encoded value is not JSON", replay)
 				continue
 			}
-			if diff := c07Equal(in1, out1, "$"); diff != "" {
+			c07AbsentAsNull = nil
+			diff := c07Equal(in1, out1, "$")
+			if diff == "" {
+				// the one permitted difference is an absent optional *nullable* member reappearing as null
+				for _, p := range c07AbsentAsNull {
+					if c07NonNullableAt(schemas, schemas[name].(J), strings.TrimPrefix(p, "$")) {
+						diff = p + ": absent non-nullable member became null"
+						break
+					}
+				}
+			}
+			if diff != "" {
 				if strings.HasSuffix(diff, "explicit null lost") && c07RequiredAt(schemas, schemas[name].(J), strings.TrimSuffix(strings.TrimPrefix(diff, "$"), ": explicit null lost")) {
 					diff = strings.Replace(diff, "explicit null lost", "explicit null of a required member lost", 1)
 				}
@@ -594,6 +638,78 @@ func sameInstant(a, b string) bool {
 	ta, e1 := time.Parse(time.RFC3339Nano, a)
 	tb, e2 := time.Parse(time.RFC3339Nano, b)
 	return e1 == nil && e2 == nil && ta.Equal(tb)
+}
+
+// c07NonNullableAt: does every schema that declares the member at the path declare it, and none of them as nullable?
+// (false when the path cannot be resolved to declared members only: additional members, untyped positions)
+func c07NonNullableAt(schemas J, root J, path string) bool {
+	deref := func(s J) J {
+		for s != nil {
+			ref, ok := s["$ref"].(string)
+			if !ok {
+				return s
+			}
+			s, _ = schemas[strings.TrimPrefix(ref, "#/components/schemas/")].(J)
+		}
+		return s
+	}
+	var segs []string
+	for _, p := range strings.Split(strings.ReplaceAll(path, "[", ".["), ".") {
+		if p != "" {
+			segs = append(segs, p)
+		}
+	}
+	candidates := []J{root}
+	for _, seg := range segs {
+		var next []J
+		for _, c := range candidates {
+			c = deref(c)
+			if c == nil {
+				return false
+			}
+			objs := []J{c}
+			for _, key := range []string{"allOf", "oneOf", "anyOf"} {
+				if l, ok := c[key].([]interface{}); ok {
+					for _, m := range l {
+						if mj := deref(m.(J)); mj != nil {
+							objs = append(objs, mj)
+						}
+					}
+				}
+			}
+			for _, o := range objs {
+				if strings.HasPrefix(seg, "[") {
+					if it, ok := o["items"].(J); ok {
+						next = append(next, it)
+					}
+					continue
+				}
+				if props, ok := o["properties"].(J); ok {
+					if ps, ok := props[seg].(J); ok {
+						next = append(next, ps)
+						continue
+					}
+				}
+				if _, ok := o["additionalProperties"]; ok {
+					return false // may be an additional member
+				}
+			}
+		}
+		candidates = next
+	}
+	if len(candidates) == 0 {
+		return false
+	}
+	for _, c := range candidates {
+		c = deref(c)
+		if c == nil {
+			return false
+		}
+		if n, _ := c["nullable"].(bool); n {
+			return false
+		}
+	}
+	return true
 }
 
 // c07RequiredAt: is the member at the path (".a.b[0].c") listed as required by the object schema that declares it?
